@@ -9,7 +9,7 @@ mkdir -p /tmp/seedrun/$id
 git -C /repo worktree prune
 git -C /repo worktree add -q --detach $R HEAD || exit 2
 git -C $R apply $patch || { echo "PATCH DOES NOT APPLY"; git -C /repo worktree remove --force $R; exit 2; }
-rsync -a --exclude work --exclude replays --exclude '.git' /verif/ $V/
+rsync -a --exclude work --exclude replays --exclude ".git" ${VERIF_SRC:-/verif}/ $V/
 sed -i "s#path = \"/repo\"#path = \"$R\"#" $V/harness/Cargo.toml
 export VERIF_REPO=$R
 cd $V
